@@ -7,7 +7,8 @@
 //!   evict_tail                               -> some|none      (slot number is never printed)
 //!   evict_to <target> <avg>                  -> <evicted> <freed>
 //!   bump | reset | reopen                    -> ok             reopen = drop, LruManager::new(cap, same dir)
-//!   checkpoint | load <gen>                  -> ok|err
+//!   checkpoint | load <gen> | shutdown       -> ok|err         shutdown = bump + checkpoint + scan_directory
+//!   latest                                   -> none | gen=<g>  (no state change: `LruManager::find_latest_lru_file(dir)`)
 //!   run_cycle <limit> <avg>                  -> ok loaded=<n> evicted=<n> freed=<n> active=<n> | err
 //!   filecheck                                -> nofile | file walk=bad |
 //!                                               file n=<entries> linked=<i,i,…|-> free=<n> stale=<n> prev=<ok|bad> head=<ok|bad>
@@ -42,7 +43,13 @@ enum Op {
     Reset,
     Reopen,
     FileCheck,
+    Shutdown,
+    Latest,
 }
+
+/// `Op::Load(LAST)` in a generated script = load the file the last checkpoint was written to
+/// (resolved against the harness's own record when the script runs).
+const LAST: u64 = u64::MAX;
 
 impl Op {
     fn text(&self) -> String {
@@ -58,6 +65,8 @@ impl Op {
             Op::Reset => "reset".into(),
             Op::Reopen => "reopen".into(),
             Op::FileCheck => "filecheck".into(),
+            Op::Shutdown => "shutdown".into(),
+            Op::Latest => "latest".into(),
         }
     }
     fn parse(t: &[&str], nkeys: usize) -> Option<Op> {
@@ -74,6 +83,8 @@ impl Op {
             ["reset"] => Op::Reset,
             ["reopen"] => Op::Reopen,
             ["filecheck"] => Op::FileCheck,
+            ["shutdown"] => Op::Shutdown,
+            ["latest"] => Op::Latest,
             _ => return None,
         })
     }
@@ -126,6 +137,64 @@ impl Reference {
     }
 }
 
+/// What `run_cycle(limit, avg)` must answer and leave behind when it restores `snap` (None = there
+/// is nothing to restore: the table stays as it is): (stats line, order afterwards, evicted).
+fn cycle_expect(cap: usize, before: &[usize], snap: Option<&Vec<usize>>, limit: u64, avg: u64) -> (String, Vec<usize>, usize) {
+    let mut r = Reference { cap, order: snap.cloned().unwrap_or_else(|| before.to_vec()), snaps: HashMap::new() };
+    let loaded = snap.map_or(0, |s| s.len());
+    let (mut n, mut f) = (0usize, 0u64);
+    if limit > 0 && avg > 0 {
+        let cur = r.order.len() as u64 * avg;
+        if cur > limit {
+            (n, f) = r.evict_to(cur - limit, avg);
+        }
+    }
+    (cycle_line(loaded, n, f, r.order.len()), r.order, n)
+}
+
+fn cycle_line(loaded: usize, evicted: usize, freed: u64, active: usize) -> String {
+    format!("ok loaded={loaded} evicted={evicted} freed={freed} active={active}")
+}
+
+/// The persistence clause of C17 in HISTORY order (Lean: Spec/LruPersist `Track`, theorem
+/// `reload_sees_last_checkpoint`): a reload through "the newest checkpoint" (`run_cycle`,
+/// `find_latest_lru_file`) sees the state saved by the checkpoint that was written LAST in this
+/// history.  Nothing here compares generation numbers: a generation is only the NAME of the file
+/// a checkpoint went to.
+struct Persist {
+    /// the checkpoint written last: file name (generation reported right after the write) and the
+    /// textbook LRU's order at that moment
+    last: Option<(u64, Vec<usize>)>,
+    /// the manager in memory has adopted the newest file of the directory (or there is none):
+    /// false after `reopen` over a non-empty directory and after a `load` of any other file
+    sync: bool,
+    /// a checkpoint was written while `!sync` (a manager that never looked at the directory chose
+    /// the file name): outside the clause, until the next `run_cycle` re-anchors the record
+    tainted: bool,
+    /// checkpoints written so far, and which of them wrote each file name last (for messages)
+    written: u64,
+    wrote: HashMap<u64, u64>,
+    /// shape of the history, for the tallies
+    ckpt_since_begin: bool,
+    reset_after_ckpt: bool,
+    ckpt_after_reset_after_ckpt: bool,
+}
+
+impl Persist {
+    fn new() -> Persist {
+        Persist { last: None, sync: true, tainted: false, written: 0, wrote: HashMap::new(), ckpt_since_begin: false, reset_after_ckpt: false, ckpt_after_reset_after_ckpt: false }
+    }
+    fn name(&self) -> Option<u64> { self.last.as_ref().map(|l| l.0) }
+    fn wrote_checkpoint(&mut self, name: u64, order: &[usize]) {
+        if !self.sync { self.tainted = true; }
+        self.written += 1;
+        self.wrote.insert(name, self.written);
+        self.last = Some((name, order.to_vec()));
+        if self.reset_after_ckpt { self.ckpt_after_reset_after_ckpt = true; }
+        self.ckpt_since_begin = true;
+    }
+}
+
 #[derive(Clone, Debug, PartialEq)]
 struct Obs {
     len: usize,
@@ -154,11 +223,15 @@ struct Case {
     dir: PathBuf,
     lru: LruManager,
     reference: Reference,
+    persist: Persist,
     log: Vec<String>, // request lines so far (replay)
     dead: bool,       // an oracle failure ended the case
     dir_made: bool,   // the directory is created at the first checkpoint (a missing directory reads as empty)
     zero_iter_reported: bool,
     file_checked: bool,
+    latest_reload: bool,          // a reload through "newest file" was held against the last checkpoint written
+    latest_reload_choice: bool,   // … with more than one file on disk
+    latest_reload_after_reset: bool, // … with checkpoint, reset, checkpoint before it
     // branch coverage of this case
     evict_on_full: bool,
     reload_ok: bool,
@@ -332,6 +405,7 @@ impl Case {
             cap,
             lru: LruManager::new(cap, dir.clone()),
             reference: Reference { cap: cap as usize, order: vec![], snaps: HashMap::new() },
+            persist: Persist::new(),
             keys,
             zero_idx,
             dir,
@@ -340,6 +414,9 @@ impl Case {
             dir_made: false,
             zero_iter_reported: false,
             file_checked: false,
+            latest_reload: false,
+            latest_reload_choice: false,
+            latest_reload_after_reset: false,
             evict_on_full: false,
             reload_ok: false,
             evict_to_hit: false,
@@ -357,6 +434,9 @@ impl Case {
         if self.evict_to_hit { cx.s.tally("case.evict_to-evicts"); }
         if self.refill_after_evict { cx.s.tally("case.refill-after-public-evict"); }
         if self.file_checked { cx.s.tally("case.checkpoint-file-read-as-list"); }
+        if self.latest_reload { cx.s.tally("case.newest-file-reload-vs-last-checkpoint-written"); }
+        if self.latest_reload_choice { cx.s.tally("case.newest-file-reload-vs-last-checkpoint-written.several-files"); }
+        if self.latest_reload_after_reset { cx.s.tally("case.newest-file-reload-vs-last-checkpoint-written.checkpoint-reset-checkpoint"); }
         if self.zero_idx.is_some() { cx.s.tally("case.universe-has-zero-key"); }
         cx.s.tally(&format!("cap.{}", if self.cap <= 3 { self.cap.to_string() } else if self.cap <= 8 { "4-8".into() } else if self.cap <= 32 { "9-32".into() } else { "33+".into() }));
         let l = self.log.len() - 1;
@@ -377,8 +457,8 @@ impl Case {
         cx.s.tally(&format!("op.{}", req.split(' ').next().unwrap_or("")));
         let cap = self.cap;
         let before_len = self.reference.order.len();
-        let gens_before = if matches!(op, Op::RunCycle(..)) { disk_generations(&self.dir) } else { vec![] };
-        if matches!(op, Op::Checkpoint) && !self.dir_made {
+        let gens_before = if matches!(op, Op::RunCycle(..) | Op::Latest) { disk_generations(&self.dir) } else { vec![] };
+        if matches!(op, Op::Checkpoint | Op::Shutdown) && !self.dir_made {
             std::fs::create_dir_all(&self.dir).expect("case dir");
             self.dir_made = true;
         }
@@ -396,6 +476,11 @@ impl Case {
             Op::EvictTo(t, a) => { let (n, f) = lru.evict_to_target(*t, *a); format!("{n} {f}") }
             Op::Bump => { lru.bump_generation(); "ok".into() }
             Op::Checkpoint => match rt.block_on(lru.checkpoint_to_disk()) { Ok(()) => "ok".into(), Err(_) => "err".into() },
+            Op::Shutdown => match rt.block_on(lru.shutdown()) { Ok(()) => "ok".into(), Err(_) => "err".into() },
+            Op::Latest => match LruManager::find_latest_lru_file(dir) {
+                None => "none".into(),
+                Some((g, p)) => if p == cascette_client_storage::lru::lru_file::lru_file_path(dir, g) { format!("gen={g}") } else { format!("gen={g} path=other") },
+            },
             Op::Load(g) => match rt.block_on(lru.load_from_disk(*g)) { Ok(()) => "ok".into(), Err(_) => "err".into() },
             Op::RunCycle(l, a) => match rt.block_on(lru.run_cycle(*l, *a)) {
                 Ok(st) => format!("ok loaded={} evicted={} freed={} active={}", st.loaded_entries, st.entries_evicted, st.bytes_freed, st.active_entries),
@@ -433,6 +518,7 @@ impl Case {
         // ---- the reference (textbook LRU) and the oracle
         let log = self.log.clone();
         let mut restored_from: Option<Vec<usize>> = None;
+        let mut cycle_ctx: Option<(Vec<usize>, Option<Vec<usize>>, bool)> = None;
         let mut fails: Vec<(String, String)> = vec![];
         let mut cycle_zero_short = false;
         let r = &mut self.reference;
@@ -470,9 +556,13 @@ impl Case {
                 }
             }
             Op::Bump => {}
-            Op::Checkpoint => {
+            Op::Checkpoint | Op::Shutdown => {
+                if res != "ok" && matches!(op, Op::Shutdown) {
+                    fails.push(("lru-shutdown-error".into(), "shutdown failed although the directory exists and is writable".into()));
+                }
                 if res == "ok" {
                     r.snaps.insert(obs.generation, r.order.clone());
+                    self.persist.wrote_checkpoint(obs.generation, &r.order);
                     // a checkpoint that reports success must be there to reload
                     if !disk_generations(&self.dir).contains(&obs.generation) {
                         fails.push(("lru-checkpoint-not-on-disk".into(), format!("checkpoint_to_disk returned Ok at generation {} (prev {}) but no file of that generation exists afterwards, so the state just saved cannot be reloaded", obs.generation, obs.prev)));
@@ -485,30 +575,44 @@ impl Case {
                         Some(snap) => { r.order = snap.clone(); restored_from = Some(snap.clone()); self.reload_ok = true; }
                         None => fails.push(("lru-load-unknown".into(), format!("load_from_disk({g}) succeeded but no checkpoint was taken at that generation"))),
                     }
+                    // the manager now sits on file `g`: in step with the directory iff that is
+                    // the file written last
+                    self.persist.sync = self.persist.name() == Some(*g);
                 }
             }
             Op::RunCycle(limit, avg) => {
                 if res == "err" {
                     fails.push(("lru-cycle-error".into(), "run_cycle failed although every file in the directory was written by checkpoint_to_disk".into()));
                 } else {
-                    let mut want_loaded = 0usize;
-                    if let Some(g) = gens_before.last() {
-                        match r.snaps.get(g) {
-                            Some(snap) => { r.order = snap.clone(); restored_from = Some(snap.clone()); want_loaded = snap.len(); self.reload_ok = true; }
-                            None => fails.push(("lru-load-unknown".into(), format!("run_cycle found generation {g} on disk that no checkpoint wrote"))),
+                    // WHICH checkpoint must come back.  Inside the clause (every checkpoint so far was
+                    // written by a manager in step with the directory): the one written last in this
+                    // history, by the harness's own record.  Outside: the file with the largest name
+                    // (what the generation scheme promises there), and the record is re-anchored on it.
+                    let by_name: Option<Vec<usize>> = gens_before.last().and_then(|g| r.snaps.get(g).cloned());
+                    let in_clause = !self.persist.tainted;
+                    let expect: Option<Vec<usize>> = if in_clause { self.persist.last.as_ref().map(|l| l.1.clone()) } else { by_name.clone() };
+                    if !in_clause {
+                        if let (Some(g), None) = (gens_before.last(), &by_name) {
+                            fails.push(("lru-load-unknown".into(), format!("run_cycle found generation {g} on disk that no checkpoint wrote")));
+                        }
+                        cx.s.tally("persist.run_cycle.outside-clause(re-anchored)");
+                    } else {
+                        cx.s.tally(if expect.is_some() { "persist.run_cycle.held-against-last-checkpoint-written" } else { "persist.run_cycle.no-checkpoint-yet" });
+                        if expect.is_some() {
+                            self.latest_reload = true;
+                            if gens_before.len() > 1 { self.latest_reload_choice = true; cx.s.tally("persist.run_cycle.held-against-last-checkpoint-written.several-files-on-disk"); }
+                            if self.persist.ckpt_after_reset_after_ckpt { self.latest_reload_after_reset = true; }
                         }
                     }
-                    let (mut n, mut f) = (0usize, 0u64);
-                    if *limit > 0 && *avg > 0 {
-                        let cur = r.order.len() as u64 * *avg;
-                        if cur > *limit {
-                            (n, f) = r.evict_to(cur - *limit, *avg);
-                            if n > 0 { self.evict_to_hit = true; self.evicted_since_fill = true; }
-                        }
-                    }
-                    let want = format!("ok loaded={} evicted={} freed={} active={}", want_loaded, n, f, r.order.len());
+                    let before = r.order.clone();
+                    let (want, after, n) = cycle_expect(r.cap, &before, expect.as_ref(), *limit, *avg);
+                    if n > 0 { self.evict_to_hit = true; self.evicted_since_fill = true; }
+                    if expect.is_some() { self.reload_ok = true; }
+                    r.order = after;
+                    restored_from = expect.clone();
                     let zero_here = self.zero_idx.is_some_and(|z| r.order.contains(&z));
-                    let want_short = format!("ok loaded={} evicted={} freed={} active={}", want_loaded, n, f, r.order.len().saturating_sub(1));
+                    // (the all-zero key is counted as loaded but not as active: known shape 1)
+                    let want_short = want.rsplit_once("active=").map_or(String::new(), |(head, _)| format!("{head}active={}", r.order.len().saturating_sub(1)));
                     if res != want && fails.is_empty() {
                         if zero_here && res == want_short {
                             cycle_zero_short = true;
@@ -516,11 +620,41 @@ impl Case {
                             fails.push(("lru-cycle-stats".into(), format!("run_cycle returned [{res}], reference [{want}]")));
                         }
                     }
+                    cycle_ctx = Some((before, expect, in_clause));
+                    // the record after the cycle
+                    if !in_clause {
+                        self.persist.last = gens_before.last().and_then(|g| by_name.clone().map(|s| (*g, s)));
+                        self.persist.tainted = gens_before.last().is_some() && by_name.is_none();
+                    }
+                    self.persist.sync = true;
                 }
             }
             Op::Reset | Op::Reopen => {
                 r.order.clear();
                 self.evicted_since_fill = false;
+                if matches!(op, Op::Reopen) {
+                    // a new manager has not looked at the directory
+                    self.persist.sync = self.persist.last.is_none();
+                } else if self.persist.ckpt_since_begin {
+                    self.persist.reset_after_ckpt = true;
+                }
+            }
+            Op::Latest => {
+                // `find_latest_lru_file` must name the file of the checkpoint written last (inside
+                // the clause; outside it, the largest name the harness's own directory scan finds)
+                let in_clause = !self.persist.tainted;
+                let want_gen = if in_clause { self.persist.name() } else { gens_before.last().cloned() };
+                let want = want_gen.map_or("none".to_string(), |g| format!("gen={g}"));
+                cx.s.tally(if in_clause { "persist.latest.held-against-last-checkpoint-written" } else { "persist.latest.outside-clause" });
+                if res != want {
+                    let sig = if in_clause { "lru-latest-file-not-last-written" } else { "lru-latest-file-not-largest" };
+                    let which = match (in_clause, self.persist.name()) {
+                        (true, Some(g)) => format!("the checkpoint written last (#{} of this history) went to the file of generation {g}", self.persist.written),
+                        (true, None) => "no checkpoint has been written".to_string(),
+                        _ => format!("files on disk: {:?}", gens_before),
+                    };
+                    fails.push((sig.into(), format!("find_latest_lru_file answers [{res}], expected [{want}]: {which}; files on disk {:?}", gens_before)));
+                }
             }
             Op::FileCheck => {
                 // the representation invariant, on the bytes the real code wrote: a well-formed
@@ -624,6 +758,34 @@ impl Case {
                     return false;
                 }
             }
+        }
+        // the persistence clause in history order: a run_cycle (inside the clause) whose outcome is
+        // NOT the last checkpoint written but IS exactly what restoring another file of the
+        // directory (or restoring nothing) gives has reloaded a stale checkpoint
+        if let (Op::RunCycle(limit, avg), Some((before, expect, true))) = (op, &cycle_ctx) {
+            let explains = |snap: Option<&Vec<usize>>| -> bool {
+                let (want, after, _) = cycle_expect(self.reference.cap, before, snap, *limit, *avg);
+                let has: Vec<bool> = (0..self.keys.len()).map(|i| after.contains(&i)).collect();
+                let ord: Vec<Option<usize>> = after.iter().map(|i| Some(*i)).collect();
+                res == want && obs.len == after.len() && obs.has == has && obs.order.as_ref() == Some(&ord)
+            };
+            let last_desc = match &self.persist.last {
+                Some((g, snap)) => format!("the checkpoint written last (#{} of this history, to the file of generation {g}) holds {:?}", self.persist.written, snap),
+                None => "no checkpoint has been written".to_string(),
+            };
+            let mut relabel: Option<(String, String)> = None;
+            for g in gens_before.iter().rev() {
+                if let Some(snap) = self.reference.snaps.get(g) {
+                    if Some(snap) != expect.as_ref() && explains(Some(snap)) {
+                        relabel = Some(("lru-reload-not-latest-checkpoint".into(), format!("run_cycle restored the file of generation {g} = checkpoint #{} of this history holding {:?}, but {last_desc}; files on disk before the cycle {:?}, after it {:?}", self.persist.wrote.get(g).cloned().unwrap_or(0), snap, gens_before, disk_generations(&self.dir))));
+                        break;
+                    }
+                }
+            }
+            if relabel.is_none() && expect.is_some() && explains(None) {
+                relabel = Some(("lru-reload-lost-checkpoint".into(), format!("run_cycle restored nothing, but {last_desc}; files on disk before the cycle {:?}", gens_before)));
+            }
+            if let Some(f) = relabel { fails.insert(0, f); }
         }
         let (sig, msg) = fails[0].clone();
         let all: Vec<&str> = fails.iter().map(|f| f.0.as_str()).collect();
